@@ -178,7 +178,14 @@ func (h *Heap) Read(key []*Term) *Term {
 			}
 		}
 	case hIte:
-		r = Ite(h.c, h.a.Read(key), h.b.Read(key))
+		// specialise the key under the branch condition: ite(c, k1, k2) reads k1 in a and k2 in b
+		ka := make([]*Term, len(key))
+		kb := make([]*Term, len(key))
+		for i, k := range key {
+			ka[i] = specialize(k, h.c, true, 3)
+			kb[i] = specialize(k, h.c, false, 3)
+		}
+		r = Ite(h.c, h.a.Read(ka), h.b.Read(kb))
 	case hCopy:
 		dstArr, dstOff, n, srcArr, srcOff := h.key[0], h.key[1], h.key[2], h.key[3], h.key[4]
 		in := And(Eq(key[0], dstArr), BVCmp("bvsle", dstOff, key[1]), BVCmp("bvslt", key[1], BVBin("bvadd", dstOff, n)))
@@ -260,4 +267,26 @@ func (h *Heap) registerHook() {
 			hh.baseFacts(t, t.args)
 		}
 	}
+}
+
+// specialize simplifies t under the assumption that cond has truth value val
+// (only ite nodes on exactly this condition are resolved, to a bounded depth).
+func specialize(t *Term, cond *Term, val bool, depth int) *Term {
+	if depth == 0 || len(t.args) == 0 || t.bound {
+		return t
+	}
+	if t.op == "ite" && t.args[0] == cond {
+		if val {
+			return specialize(t.args[1], cond, val, depth-1)
+		}
+		return specialize(t.args[2], cond, val, depth-1)
+	}
+	if t.op == "bvadd" || t.op == "bvsub" {
+		a := specialize(t.args[0], cond, val, depth-1)
+		b := specialize(t.args[1], cond, val, depth-1)
+		if a != t.args[0] || b != t.args[1] {
+			return BVBin(t.op, a, b)
+		}
+	}
+	return t
 }
